@@ -241,6 +241,7 @@ func runC15(c *Ctx) {
 	var keep []item
 	var priors [][]rawDoc
 	warned := 0
+	nDiffer := 0
 	for _, it := range items {
 		k := it.cfg.String()
 		if used[k] == nil {
@@ -272,6 +273,15 @@ func runC15(c *Ctx) {
 		hist[k] = append(h, rawDoc(it.doc))
 		if len(obs.IDs) >= 2 {
 			ev.Distinct(k + "|" + it.doc)
+		}
+		// once many documents have already come out differently on the long-used instance there
+		// is enough for TLC to judge; an instance that keeps state across documents also gets
+		// slower with every document, so the rest of the workload is not run
+		if strings.Join(obs.IDs, "|") != strings.Join(obs.IDsUsed, "|") {
+			if nDiffer++; nDiffer > 200 {
+				ev.Set("workload_cut_short_after_differences", nDiffer)
+				break
+			}
 		}
 	}
 	bad, tr := tlcJudge("TraceHeadingIDs", "TraceHeadingIDs.cfg", "obs.ndjson", recs)
